@@ -3,11 +3,11 @@ package rules
 import (
 	"encoding/json"
 	"fmt"
-	"os"
-	"path/filepath"
 	"go/ast"
 	"go/token"
 	"go/types"
+	"os"
+	"path/filepath"
 	"sort"
 	"strings"
 
